@@ -333,4 +333,39 @@ def reachClauses (r : Reach) : List (String × Bool) :=
 
 def reachHolds (r : Reach) : Bool := (reachClauses r).all (·.2)
 
+/-! ## Round 8c: the REST API over libp2p (from the statement: an untrusted peer cannot alter the pinset)
+
+The REST API has routes that alter the pinset (`POST /pins/<cid>` …) and is served over HTTP and, when it has a libp2p host,
+over libp2p streams. A peer of the swarm - anybody who holds the cluster secret - can open streams to the CLUSTER host. The
+statement's "a peer that is not trusted cannot alter the pinset" therefore also speaks about this listener: a swarm peer that
+the serving peer's consensus does not trust, calling without credentials, must not get a pinset-mutating route served. -/
+
+structure DmnInput where
+  /-- the daemon: `"cmd/ipfs-cluster-service"` | `"cmd/ipfs-cluster-follow"` -/
+  dir : String
+  mode : Mode
+  /-- `libp2p_listen_multiaddress` configured (the API gets a host of its own) -/
+  addr : Bool
+  /-- `basic_auth_credentials` configured -/
+  auth : Bool
+  /-- the calling swarm peer is listed in the serving peer's `trusted_peers` -/
+  listed : Bool
+
+/-- "Trust follows the configuration - every peer in Raft mode; the listed peers … in CRDT mode" -/
+def DmnInput.callerTrusted (i : DmnInput) : Bool := i.mode == .raft || i.listed
+
+/-- `served`: the swarm peer, over a stream to the cluster host and without credentials, got `POST /pins/<cid>` answered 2xx -/
+def dmnClauses (i : DmnInput) (served : Bool) : List (String × Bool) :=
+  [ ("untrusted_swarm_peer_cannot_pin_over_rest", !(!i.callerTrusted && served)) ]
+
+def dmnHolds (i : DmnInput) (served : Bool) : Bool := (dmnClauses i served).all (·.2)
+
+/-! ## Round 8c: what a handshake really drove (dynamic counterpart of `reachClauses`)
+`calls`: the (component, method) calls recorded by the components behind the real server while an UNTRUSTED remote peer called
+the three open endpoints with arguments that decode. -/
+def hsClauses (calls : List (String × String)) : List (String × Bool) :=
+  [ ("open_handler_drives_nothing", calls.all (fun c => !drives c)) ]
+
+def hsHolds (calls : List (String × String)) : Bool := (hsClauses calls).all (·.2)
+
 end CV.C07
